@@ -19,13 +19,17 @@ Full == Tier = "thorough"
 None == [kind |-> "none"]
 Pick(i, n, k) == Full \/ (i + SeedN) % n < k
 
-E(lit, sum) == [lit |-> lit, sum |-> sum]
+E(lit, sum) == [lit |-> lit, sum |-> sum, more |-> <<>>]
+EM(lit, sum, more) == [lit |-> lit, sum |-> sum, more |-> more]      \* with continuation lines
 RecOf(ord, should, rsum, entries) == [ord |-> ord, should |-> should, rsum |-> rsum, entries |-> entries, dashes |-> TRUE]
 Slashed(r) == [r EXCEPT !.dashes = FALSE]
 
 RECURSIVE EntryText(_, _)
+RECURSIVE ContText(_)
+ContText(ls) == IF ls = <<>> THEN "" ELSE "        " \o Head(ls) \o "\n" \o ContText(Tail(ls))
 EntryText(es, i) == IF i > Len(es) THEN ""
-                    ELSE "    " \o es[i].lit \o (IF es[i].sum # "" THEN " " \o es[i].sum ELSE "") \o "\n" \o EntryText(es, i + 1)
+                    ELSE "    " \o es[i].lit \o (IF es[i].sum # "" THEN " " \o es[i].sum ELSE "") \o "\n"
+                         \o ContText(es[i].more) \o EntryText(es, i + 1)
 RECURSIVE LinesText(_)
 LinesText(ls) == IF ls = <<>> THEN "" ELSE Head(ls) \o "\n" \o LinesText(Tail(ls))
 RecText(r) == FormatDate(r.ord, r.dashes) \o (IF r.should # "" THEN " (" \o r.should \o ")" ELSE "") \o "\n"
@@ -60,7 +64,10 @@ TotalRuns == <<Run("json", <<"json">>), Run("total:plain", <<"total", "--diff", 
                [Run("today:now", <<"today", "--diff", "--decimal", "--now", "--no-warn">>) EXCEPT !.now = TRUE]>>
 TotalShards == {[k |-> "total", a |-> i, b |-> j] : i \in 1..NVals, j \in 0..NVals}
 TotalCases(sh) ==
-    LET es == IF sh.b = 0 THEN <<E(Vals[sh.a], "")>> ELSE <<E(Vals[sh.a], "x"), E(Vals[sh.b], "#t")>>
+    LET es == IF sh.b = 0 THEN <<E(Vals[sh.a], "")>>
+              ELSE IF (sh.a + sh.b) % 3 = 0
+              THEN <<EM(Vals[sh.a], "", <<"starts on the next line #n", "third line">>), EM(Vals[sh.b], "#t first", <<"second #s=1">>)>>
+              ELSE <<E(Vals[sh.a], "x"), E(Vals[sh.b], "#t")>>
         hasOpen == \E i \in 1..Len(es) : Ch(es[i].lit, Len(es[i].lit)) = "?"
         twoOpen == Cardinality({i \in 1..Len(es) : Ch(es[i].lit, Len(es[i].lit)) = "?"}) > 1
         dates == IF hasOpen THEN {T0, T0 - 1, T0 - 2, T0 + 1} ELSE {T0}
@@ -267,7 +274,9 @@ StyleFiles == <<
     <<RecOf(T0, "8h!", <<"Work #day=\"a b\" ünïcödé 日本語">>, <<E("8:00 - 12:30", "#proj=x coding"), E("-45m", "#lunch"), E("13:15 - ?", "#proj=y")>>),
       RecOf(T0 - 1, "", <<>>, <<E("120h", "#日本 big"), E("-1h", "")>>)>>,
     <<RecOf(T0 - 40, "-2h!", <<"\\033[31m %s %d #esc">>, <<E("1m", "100% #ä=ö"), E("<23:00 - 0:30>", "#Σmega")>>)>>,
-    <<RecOf(T0, "", <<>>, <<>>)>>
+    <<RecOf(T0, "", <<>>, <<>>)>>,
+    <<RecOf(T0, "7h!", <<"stand-up with the #team", "then #gym">>,
+            <<E("9:00 - 9:15", "#ticket=2024"), E("1h", "review #k=38 #m"), E("-15m", "#pause=5;1m"), E("10:00 - ?", "#z=[0m")>>)>>
 >>
 StyleShards == {[k |-> "style", a |-> i, b |-> 0] : i \in 1..Len(StyleFiles)}
 StyleCases(sh) == {CaseOf(FileText(StyleFiles[sh.a]), NowOf(T0, 840), StyleRuns)}
